@@ -353,6 +353,12 @@ func init() {
 			"allocation bound 2 MiB + 64*len(input) per call, minimum of three measurements (DESIGN 3.3); not applied to DecodeBlocked, whose announced frame sizes are clamped to 1 MiB",
 			"a hang is a logical-step overrun: 64*(len+1024) Tick events per call; loops without a Tick site are covered only by the wall-clock watchdog (inconclusive)",
 		},
+		Conclude: func(total *fw.Result) []string {
+			if total.Counters["hook_events/tick"] == 0 {
+				return []string{"the Tick hook produced no event: the step-budget monitor (hang detection) observed nothing — is the library built with -tags verif?"}
+			}
+			return nil
+		},
 		Stages: []*fw.Stage{
 			{
 				Name: "truncate", N: q(15000, 400000),
